@@ -103,6 +103,23 @@ func runSched(c *ctx, plan []famCount, race bool) *schedAgg {
 	}
 	var jobs []job
 	var args [][]string
+	if c.RS != nil {
+		// replay: the witnessed scenario only, 200 times in fresh processes
+		plan = nil
+		if c.RS.Engine == "S" {
+			for k := 0; k < 200; k++ {
+				j := job{fam: c.RS.Family, from: c.RS.Index, count: 1,
+					out:  filepath.Join(work, fmt.Sprintf("b%d.json", k)),
+					prog: filepath.Join(work, fmt.Sprintf("b%d.progress", k))}
+				jobs = append(jobs, j)
+				a := []string{"-seed", strconv.FormatUint(c.Seed, 10), "-family", j.fam, "-from", strconv.Itoa(j.from), "-count", "1", "-out", j.out, "-progress", j.prog}
+				if race {
+					a = append(a, "-quiet")
+				}
+				args = append(args, a)
+			}
+		}
+	}
 	for _, fc := range plan {
 		per := 150
 		switch fc.Family {
